@@ -113,17 +113,24 @@ pub async fn start(config_path: &str, real_signals: bool) -> Result<Pooler, Stri
                     let tls_certificate = get_config().general.tls_certificate.clone();
                     pgcat::messages::configure_socket(&socket);
                     let results = results.clone();
-                    let h = tokio::task::spawn(async move {
-                        pgcat::client::client_entrypoint(
-                            socket,
-                            client_server_map,
-                            shutdown_rx,
-                            drain_tx,
-                            admin_only,
-                            tls_certificate,
-                            false,
-                        )
-                        .await
+                    // C10 (schedule hooks, off unless HOOK_ACTORS is set): every poll of this client task runs
+                    // with pgcat::verif_hooks' actor id = accept index (1, 2, ..) if that index is listed in
+                    // HOOK_PARK, else 0, so that a `verif_hooks::point` inside the task can park exactly that client.
+                    let accept_index = ACCEPTED.fetch_add(1, Ordering::SeqCst) + 1;
+                    let h = tokio::task::spawn(WithActor {
+                        id: accept_index,
+                        fut: Box::pin(async move {
+                            pgcat::client::client_entrypoint(
+                                socket,
+                                client_server_map,
+                                shutdown_rx,
+                                drain_tx,
+                                admin_only,
+                                tls_certificate,
+                                false,
+                            )
+                            .await
+                        }),
                     });
                     tokio::spawn(async move {
                         let r = match h.await {
@@ -150,6 +157,29 @@ pub async fn start(config_path: &str, real_signals: bool) -> Result<Pooler, Stri
         // mark the exit; the harness treats later observations accordingly.
     });
     Ok(p)
+}
+
+/// C10: number of client connections accepted so far (the accept index of a client task).
+pub static ACCEPTED: std::sync::atomic::AtomicU64 = std::sync::atomic::AtomicU64::new(0);
+/// C10: when true, client tasks are polled under a verif_hooks actor id (see the accept loop).
+pub static HOOK_ACTORS: AtomicBool = AtomicBool::new(false);
+/// C10: accept indices whose tasks may be parked at a verif_hooks point (all others run as actor 0).
+pub static HOOK_PARK: once_cell::sync::Lazy<Mutex<Vec<u64>>> = once_cell::sync::Lazy::new(|| Mutex::new(Vec::new()));
+
+pub struct WithActor<F> {
+    pub id: u64,
+    pub fut: std::pin::Pin<Box<F>>,
+}
+
+impl<F: std::future::Future> std::future::Future for WithActor<F> {
+    type Output = F::Output;
+    fn poll(mut self: std::pin::Pin<&mut Self>, cx: &mut std::task::Context<'_>) -> std::task::Poll<F::Output> {
+        if HOOK_ACTORS.load(Ordering::SeqCst) {
+            let id = if HOOK_PARK.lock().contains(&self.id) { self.id } else { 0 };
+            pgcat::verif_hooks::set_actor(id);
+        }
+        self.fut.as_mut().poll(cx)
+    }
 }
 
 /// Snapshot of everything observable through pgcat's public API.
